@@ -4,6 +4,34 @@ import json, os
 V = os.path.dirname(os.path.dirname(os.path.abspath(__file__)))
 ALL = ["C%02d" % i for i in range(1, 19)]
 CHECKS = {
+ "C01": dict(cat="exploration", ref="5 C01",
+   text="Edit runs over generated trees cycling through ID-space classes (none, {0}, dense, gaps, duplicates, 2^31/2^16 boundaries, u32::MAX-k) x lock states (absent, disabled with stale lock, consistent) x style; inserted IDs (from the insertion decomposition) are checked for uniqueness, disjointness from existing IDs, range and ordering, and an exhausted range must end in a failing run. Thorough adds a build with integer-overflow checks (arithmetic sanitizer) and the real-code corpora.",
+   note="Generator record of existing IDs; decomposition identifies inserted IDs; handing out the very last ID may be refused.",
+   tech="runtime monitoring: generated ID-space workloads + conservation/uniqueness oracle; overflow-checks instrumented build"),
+ "C03": dict(cat="exploration", ref="5 C03",
+   text="Every file of every edit run (generated, mutated, >1 MiB / >=1000-insertion files, corpora, mutated corpora) is compared before/after by the insertion decomposition: removing the matched tokens must give back the original bytes, and statements that already carried a valid reference receive nothing. Required file classes must each have been observed changed.",
+   note="Decomposition (DESIGN 4.1) is the definition of 'only inserts'; generator truth for already-referenced statements.",
+   tech="runtime monitoring: before/after snapshot + insertion-decomposition oracle over real, generated and mutated inputs"),
+ "C04": dict(cat="exploration", ref="5 C04",
+   text="Every --check process runs under strace -f -y; an offline checker over the syscall log flags any successful kernel call that can mutate the filesystem, and full before/after snapshots (content, mode, mtime, inode, path set) of project, TMPDIR, cwd and an outside directory must be equal. Thorough enumerates the whole configuration product (exhaustive) and the corpora.",
+   note="ptrace-level observation (cannot be bypassed by direct syscalls); writes to pipes/eventfds//dev are allowed.",
+   tech="runtime monitoring: strace syscall-trace checker + snapshot equality"),
+ "C05": dict(cat="exploration", ref="5 C05",
+   text="Relational oracle on identical trees: locations and total reported by --check are compared (through the harness's own line/column model) with the insertion offsets and count of an edit run, plus exit statuses and printed count; generated, mutated and corpus trees, multi-byte/CRLF/tab content.",
+   note="Line/column model of DESIGN 4.2; pinned stdout phrases; fault-free runs only.",
+   tech="runtime monitoring: differential check-vs-edit oracle over observed executions"),
+ "C06": dict(cat="exploration", ref="5 C06",
+   text="Three runs per tree (edit, --check, edit): check must pass, the second edit must change no byte and leave the lock value, and the second edit's parser trace (hook) must read back every inserted token at its position with the inserted ID.",
+   note="Hook trace for the read-back clause; canonical statement space as precondition.",
+   tech="runtime monitoring: fixpoint/round-trip oracle over run sequences + parser trace hook"),
+ "C15": dict(cat="exploration", ref="5 C15",
+   text="Full product of extension lists x source_dir forms x config path forms x invocation directories over a hostile layout (look-alike extensions, directory named *.rs, symlinks in/out, dangling links, trap src/ dirs relative to the cwd); whole-sandbox snapshot diff, files opened (shim), reported paths and lock location are compared with an independent scope model.",
+   note="Scope model from the property text; shim log for files read.",
+   tech="runtime monitoring: snapshot diff + LD_PRELOAD open() monitor against a scope model"),
+ "C16": dict(cat="exploration", ref="5 C16",
+   text="The full 576-point product of use_cache x structured x extensions x lock state x mode x tree plus 16 error exits is executed; exit status, snapshot diff, lock before/after, lock opened or not (shim), IDs chosen and token style are compared with a table derived from the user guide. Exhaustive for that product.",
+   note="Expectation table from docs/source/configuration.rst and the property text.",
+   tech="runtime monitoring: exhaustive configuration product + table oracle over observed effects"),
  "C11": dict(cat="exploration", ref="5 C11",
    text="Every decoy class (comments incl. EOF without newline, unconfigured/prefix/suffix/other-path macros, non-literal invocations, macro text in escaped strings) x position x macro set x style is placed among real statements and run through the real binary in both modes; no reported location, inserted token or parser entry may fall inside a decoy's byte range.",
    note="Decoy byte ranges by construction; hook trace as extra observation; raw strings are not decoys.",
